@@ -289,6 +289,10 @@ def run(prog, tier, extra=None):
             res.sample({"rule": R4, "queue": gcv.name_of(k) or "_%d" % k, "queued_at": [gcv.loc(x) for x in sorted(P)][:4], "handler_loop": gcv.loc(HL),
                         "verdict": "every queued output reaches the handler; every iteration rebroadcasts or collects"})
 
+    # a rebroadcast "consumes" the expiring output only if its input is looked up in the UTXO set like any other input
+    from ._include import include
+    include(res, prog, tier, extra, "c01", ["C01.utxo-lookup"],
+            "the rebroadcast commitment does not cover an input's block id / ordinal: only the ledger lookup ties the rebroadcast to the output it replaces")
     res.explanation = (
         "Decides that the rebroadcast set is committed and compared: the validator's recomputed rebroadcast hash and rebroadcast-slip count must equal the header's on "
         "every accepting path (consensus mode), and the header values are accumulated in Block::generate only from ATR-typed transactions. Necessary for "
